@@ -917,17 +917,24 @@ class DATETIME(NUMERIC):
     def parse_range(self, fieldname, start, end, startexcl, endexcl,
                     boost=1.0):
         from whoosh import query
+        from whoosh.qparser.common import QueryParserError
 
         if start is None and end is None:
             return query.Every(fieldname, boost=boost)
 
-        if start is not None:
-            startdt = self._parse_datestring(start).floor()
-            start = datetime_to_long(startdt)
+        try:
+            if start is not None:
+                startdt = self._parse_datestring(start).floor()
+                start = datetime_to_long(startdt)
 
-        if end is not None:
-            enddt = self._parse_datestring(end).ceil()
-            end = datetime_to_long(enddt)
+            if end is not None:
+                enddt = self._parse_datestring(end).ceil()
+                end = datetime_to_long(enddt)
+        except Exception:
+            # The range bounds are not parseable dates: the parser reports
+            # QueryParserError in-band, as it does for NUMERIC ranges
+            e = sys.exc_info()[1]
+            raise QueryParserError(e)
 
         return query.NumericRange(fieldname, start, end, boost=boost)
 
